@@ -1406,8 +1406,8 @@ class StateSpace(NonlinearIOSystem, LTI):
         # copy over the system name, inputs, outputs, and states
         if copy_names:
             sysd._copy_names(self, prefix_suffix_name='sampled')
-            if name is not None:
-                sysd.name = name
+        if name is not None:
+            sysd.name = name
         # pass desired signal names if names were provided
         return StateSpace(sysd, **kwargs)
 
